@@ -31,6 +31,7 @@ def main():
         sys.exit("/repo is not clean")
     resfile = os.path.join(SEEDED, "results.json")
     results = json.load(open(resfile)) if os.path.exists(resfile) else {}
+    ran = []
     for d in sorted(glob.glob(os.path.join(SEEDED, "C*", "*", "patch.diff"))):
         name = os.path.basename(os.path.dirname(d))
         pid = os.path.basename(os.path.dirname(os.path.dirname(d)))
@@ -53,6 +54,7 @@ def main():
         entry["compiles"] = b.returncode == 0
         for cid in [pid] + meta.get("also", []):
             t0 = time.time()
+            ran.append(cid)
             r = sh("cd %s && ./check %s --tier %s" % (ROOT, cid, tier))
             viol = [l for l in r.stdout.splitlines() if l.startswith("VIOLATION")]
             entry["checks"][cid] = {"exit": r.returncode, "violation": viol[:1], "wall_s": round(time.time() - t0, 1), "tier": tier}
@@ -67,6 +69,11 @@ def main():
         results["%s/%s" % (pid, name)] = entry
         json.dump(results, open(resfile, "w"), indent=1, sort_keys=True)
     # evidence files were rewritten by mutated runs: regenerate them on the clean tree
+    if "--no-restore" not in sys.argv:
+        touched = sorted({c for k, e in results.items() if e.get("applies") for c in e["checks"]} & set(ran))
+        for cid in touched:
+            r = sh("cd %s && ./check %s --tier quick" % (ROOT, cid))
+            print("restore evidence %s -> exit %d" % (cid, r.returncode), flush=True)
     lines = ["# Seeded changes and the checks that catch them", "",
              "Each row: a deliberately broken variant of relic (compiles, passes relic's own test suite) and the exit code of the listed checks with the patch applied (1 = VIOLATION reported, 0 = missed, 2 = inconclusive).", "",
              "| seeded change | what it breaks | checks (exit) |", "|---|---|---|"]
